@@ -69,8 +69,10 @@ def build_fst(T, srname, style="int"):
         m.add_I(st_name(style, q), dec_w(R, w))
     for q, w in T["F"]:
         m.add_F(st_name(style, q), dec_w(R, w))
+    keys = [(p, a, b, q) for p, a, b, q, w in T["arcs"]]
+    use_set = T.get("ctor") == "set" and len(set(keys)) == len(keys)     # set_arc overwrites: only without parallel arcs
     for p, a, b, q, w in T["arcs"]:
-        m.add_arc(st_name(style, p), (unt(a), unt(b)), st_name(style, q), dec_w(R, w))
+        (m.set_arc if use_set else m.add_arc)(st_name(style, p), (unt(a), unt(b)), st_name(style, q), dec_w(R, w))
     return m
 
 
@@ -436,7 +438,7 @@ def numeric_ok(M, lim=2048):
 # random machines
 
 
-def rand_wfsa(rng, srname, nS=3, narcs=5, labels=("a", "b", ""), eps_acyclic=False, acyclic=False):
+def rand_wfsa(rng, srname, nS=3, narcs=5, labels=("a", "b", ""), eps_acyclic=False, acyclic=False, eps_loop=0.0):
     from families import weights_for
     R = SR[srname]
     ws = [enc_w(R, us.mk(R, w)) for w in weights_for(R)]
@@ -454,6 +456,10 @@ def rand_wfsa(rng, srname, nS=3, narcs=5, labels=("a", "b", ""), eps_acyclic=Fal
                 continue
             i, j = min(i, j), max(i, j)
         M["arcs"].append([i, a, j, rng.choice(ws)])
+    if rng.random() < eps_loop:
+        # an epsilon self-loop of weight < 1 (its geometric series converges): the only epsilon cycle of the machine
+        q = rng.choice([r[0] for r in M["arcs"]] + [r[2] for r in M["arcs"]] + [M["I"][0][0]])
+        M["arcs"].append([q, "", q, enc_w(R, us.mk(R, rng.choice([Fraction(1, 2), Fraction(1, 4)])))])
     return M
 
 
